@@ -6,6 +6,8 @@ MS-7 accessor bound: the raw offset computed by at_ptr/at_mut_ptr stays inside n
 MS-3 scratch carving ownership (= SC-5), MS-4 no store through read-only operands (= WR-3), MS-6 handle immutability (= THR-2)
 plus SER-1/SER-2 on the leaf readers (objects whose dimensions came from deserialisation)
 """
+import re
+
 from . import facts, c11, c12, c18, c20
 from .cfg import CFG, Flow
 from .sym import Sym, Poly
@@ -269,6 +271,37 @@ def ms7(p, res):
                 res.ok("MS-7", {"fn": f.pretty, "offset": repr(off), "slack": repr(diff)})
             else:
                 res.bad("MS-7", f.pretty, "offset-exceeds", "%s: with i = cols-1, j = size-1 the limb slice ends at %r, beyond the %r scalars the metadata invariant guarantees" % (f.pretty, end, cap), site=f.where(at["l"]))
+    # per implementing type: the bound above speaks of n*cols*size scalars, the buffer invariant of n*poly_count: a type whose poly_count has further
+    # factors (MatZnx: rows, cols_out) needs them to be >= 1, or the accessor must itself compare its offset with poly_count
+    guarded = 0
+    for nm in ("at_ptr", "at_mut_ptr"):
+        fs = [f for f in p.lib_fns() if f.uid.startswith("poulpy_hal::layouts::znx_base::") and f.name == nm]
+        if len(fs) == 1:
+            f = fs[0]
+            g = CFG(f)
+            adds = [bi for bi, t in f.calls() if (f.callee_def(t) or {}).get("n") == "add" and "ptr" in (f.callee_def(t) or {}).get("p", "")]
+            pcs = [bi for bi, t in f.calls() if (f.callee_def(t) or {}).get("n") == "poly_count"]
+            if adds and pcs and any(g.dominates(pb, adds[0]) for pb in pcs):
+                guarded += 1
+    guarded_by_poly_count = guarded == 2
+    for im in p.impls:
+        if not (im["trait"] or "").endswith("znx_base::ZnxInfos") or im.get("test"):
+            continue
+        pc = im["names"].get("poly_count")
+        n += 1
+        if pc is None or p.fn(pc) is None:
+            res.ok("MS-7", {"type": im["self"], "poly_count": "default rows*cols*size"} if n % 4 == 1 else None)
+            continue
+        fpc = p.fn(pc)
+        pcp = Sym(fpc, Flow(fpc)).local(0)
+        names = sorted(a[1] for a in pcp.atoms() if a[0] == "f")
+        extra = [x for x in names if x not in ("cols", "cols_in", "size")]
+        if not extra or guarded_by_poly_count:
+            res.ok("MS-7", {"type": im["self"], "poly_count": repr(pcp), "extra_factors": extra, "accessor_compares_with_poly_count": guarded_by_poly_count})
+        else:
+            res.bad("MS-7", im["self"], "poly-count-factors:%s" % ",".join(extra),
+                    "%s: poly_count = %r has factor(s) %s that the generic accessors at/at_mut ignore (they bound the offset by cols*size only): with such a factor equal to zero - accepted by alloc and by read_from - at(i, j) builds a slice past the buffer"
+                    % (im["self"], pcp, ", ".join(extra)), site=fpc.where())
     # slice lengths
     for nm, want in (("at", "n"), ("at_mut", "n"), ("raw", "n*poly_count"), ("raw_mut", "n*poly_count")):
         fs = [f for f in p.lib_fns() if f.uid.startswith("poulpy_hal::layouts::znx_base::") and f.name == nm]
@@ -534,6 +567,112 @@ def ms9(p, res):
     return n
 
 
+# ------------------------------------------------------------------ MS-10
+def ms10(p, res):
+    """reinterpretation of a slice as a fixed-size array through a pointer cast: the length of the slice is compared with the array length on a path
+    that survives release builds - a comparison reachable only through a constant-true switch (debug_assert!) does not count"""
+    n = 0
+    for f in sorted(p.lib_fns(), key=lambda x: x.uid):
+        if f.is_test() or not f.uid.startswith("poulpy_"):
+            continue
+        casts = []
+        for bi, blk in enumerate(f.blocks):
+            if blk["c"]:
+                continue
+            for s in blk["s"]:
+                if s[0] == "A" and s[2]["k"] == "Cast" and s[2].get("ck", "").startswith("PtrToPtr"):
+                    ty = f.tys(s[2]["ty"]) if isinstance(s[2].get("ty"), int) else ""
+                    fr = f.tys(s[2]["from"]) if isinstance(s[2].get("from"), int) else ""
+                    if re.match(r"^\*(const|mut) \[[^;\]]+; [^\]]+\]$", ty) and not fr.startswith(("*const [", "*mut [")):
+                        casts.append((bi, s))
+        if not casts:
+            continue
+        g = CFG(f)
+        flow = Flow(f)
+        # blocks reachable only through the non-zero arm of a switch on a constant
+        debug_only = set()
+        for b in g.reach:
+            t = f.blocks[b]["t"]
+            if t and t["k"] == "Switch" and len(t["ts"]) == 1:
+                rr = flow.op_roots(t["o"])
+                if rr and all(r[0] == "const" for r in rr):
+                    taken = [x for x in g.succ[b] if x != t["ts"][0][1]] if any(r[1] for r in rr) else [t["ts"][0][1]]
+                    # every block dominated by the constant-selected arm that is not dominated by the join
+                    for x in g.reach:
+                        if any(g.dominates(a, x) or a == x for a in taken) and not all(g.dominates(a, x) or a == x for a in g.succ[b]):
+                            debug_only.add(x)
+        for bi, st in casts:
+            # the slice whose pointer is cast
+            src = None
+            for r in flow.op_roots(st[2]["o"][0]):
+                if r[0] == "call" and (f.callee_def(f.blocks[r[1]]["t"]) or {}).get("n") in ("as_ptr", "as_mut_ptr"):
+                    for r2 in flow.op_roots(f.blocks[r[1]]["t"]["a"][0]):
+                        if r2[0] == "param":
+                            src = r2[1]
+            if src is None:
+                continue
+            n += 1
+            checked = False
+            for b in g.reach:
+                t = f.blocks[b]["t"]
+                if not t or t["k"] != "Switch" or b in debug_only or not g.dominates(b, bi):
+                    continue
+                for r in flow.op_roots(t["o"]):
+                    if r[0] == "bin" and f.blocks[r[1]]["s"][r[2]][2]["op"] in ("Ge", "Gt", "Le", "Lt", "Eq"):
+                        for o in f.blocks[r[1]]["s"][r[2]][2]["o"]:
+                            for r3 in flow.op_roots(o):
+                                if r3[0] == "call" and (f.callee_def(f.blocks[r3[1]]["t"]) or {}).get("n") == "len":
+                                    if any(r4[0] == "param" and r4[1] == src for r4 in flow.op_roots(f.blocks[r3[1]]["t"]["a"][0])):
+                                        checked = True
+            pn = f.param_names().get(src, "#%d" % src)
+            if checked:
+                res.ok("MS-10", {"fn": f.pretty, "slice": pn, "cast_to": f.tys(st[2]["ty"])} if n % 3 == 1 else None)
+            else:
+                res.bad("MS-10", f.pretty, "array-cast-unchecked:%s" % pn,
+                        "%s reinterprets the slice `%s` as `%s` through a pointer cast; the only length check is a debug_assert! (or none): in release builds a shorter slice is read or written past its end"
+                        % (f.pretty, pn, f.tys(st[2]["ty"])), site=f.where(st[3]))
+    return n
+
+
+# ------------------------------------------------------------------ MS-12
+def ms12(p, res):
+    """raw allocations: `std::alloc::alloc` is undefined for a zero-size layout; every call is dominated by a test of the requested size against zero"""
+    n = 0
+    for f in sorted(p.lib_fns(), key=lambda x: x.uid):
+        if f.is_test() or not f.uid.startswith("poulpy_"):
+            continue
+        sites = [(bi, t) for bi, t in f.calls() if (f.callee_def(t) or {}).get("p", "") in ("std::alloc::alloc", "std::alloc::alloc_zeroed", "alloc::alloc::alloc", "alloc::alloc::alloc_zeroed")]
+        if not sites:
+            continue
+        g = CFG(f)
+        flow = Flow(f)
+        sym = Sym(f, flow)
+        for bi, t in sites:
+            n += 1
+            # the size handed to Layout::from_size_align
+            size_keys = set()
+            for b2, t2 in f.calls():
+                if (f.callee_def(t2) or {}).get("n") in ("from_size_align", "from_size_align_unchecked", "array") and t2["a"]:
+                    size_keys.add(sym.operand(t2["a"][0]).key())
+            guarded = False
+            for b in g.reach:
+                tt = f.blocks[b]["t"]
+                if not tt or tt["k"] != "Switch" or not g.dominates(b, bi) or b == bi:
+                    continue
+                for r in flow.op_roots(tt["o"]):
+                    if r[0] == "bin":
+                        st = f.blocks[r[1]]["s"][r[2]][2]
+                        if st["op"] in ("Eq", "Ne", "Gt", "Lt", "Ge", "Le"):
+                            a, c = sym.operand(st["o"][0]), sym.operand(st["o"][1])
+                            if (a.key() in size_keys and c.const_value() in (0, 1)) or (c.key() in size_keys and a.const_value() in (0, 1)):
+                                guarded = True
+            if guarded:
+                res.ok("MS-12", {"fn": f.pretty, "site": f.where(t["l"]), "guard": "size compared with zero before the allocation"})
+            else:
+                res.bad("MS-12", f.pretty, "zero-size-alloc", "%s calls the global allocator without excluding a zero-size layout (undefined behaviour per GlobalAlloc); reached by alloc(n, cols, 0) and by ScratchOwned::alloc(0)" % f.pretty, site=f.where(t["l"]))
+    return n
+
+
 def run(res, tier):
     res.level = "other"
     res.explanation = ("Memory safety of every admissible call is a whole-program numeric fact; decided here are the structural invariants the unchecked accessors rely on: (MS-7) the raw "
@@ -545,6 +684,8 @@ def run(res, tier):
     res.rule("MS-1", "construction sites of layout types match an enumerated idiom; a re-view never alters a dimension of the object it wraps")
     res.rule("MS-2", "stores to n/cols/size/max_size/rows/cols_in/cols_out of layout types occur only in set_size (dominated by a max_size comparison) and read_from")
     res.rule("MS-7", "at_ptr/at_mut_ptr: offset(i = cols-1, j = size-1) + n <= n*cols*size with unconditional asserts on i, j; at/raw slice lengths are n / n*poly_count; poly_count = rows*cols*size")
+    res.rule("MS-12", "every call of std::alloc::alloc is dominated by a test of the requested size against zero")
+    res.rule("MS-10", "a slice reinterpreted as a fixed-size array through a pointer cast has its length compared with the array length outside debug_assert! (a check under a constant-true switch does not survive release builds)")
     res.rule("MS-9", "the scratch carver's sub-slices end inside the buffer: pointer offset + length <= data.len() as a polynomial inequality over usize quantities, with checked_sub / saturating_sub read as subtraction")
     res.rule("MS-8", "block-extraction kernels (reim4_extract_1blk_contiguous): the row count is bounded, through min/max structure, by the limbs of the source view as created by the take (followed up the call chain) or by len(src)/n")
     res.rule("SER-1", "leaf readers: tainted arithmetic / slice bounds validated (shared with C18)")
@@ -565,6 +706,10 @@ def run(res, tier):
         res.floor("MS-2", "dimension stores", n2, 10)
         n7 = ms7(p, res)
         res.floor("MS-7", "accessor obligations", n7, 7)
+        n12 = ms12(p, res)
+        res.floor("MS-12", "raw allocation sites", n12, 1)
+        n10 = ms10(p, res)
+        res.floor("MS-10", "slice-to-array pointer casts", n10, 3)
         n9 = ms9(p, res)
         res.floor("MS-9", "sub-slices built by the scratch carver", n9, 2)
         n8 = ms8(p, res)
@@ -593,4 +738,4 @@ def run(res, tier):
         res.fn_count += n1 + n2 + n7
     if tier == "thorough":
         from . import witness
-        witness.check(res, ["W1ReadOnlyViews", "W2ScratchCarving", "W4NoDanglingTemporaries"])
+        witness.check(res, ["W1ReadOnlyViews", "W2ScratchCarving", "W4NoDanglingTemporaries", "W5BackendTagOfTemporaries"])
